@@ -65,6 +65,8 @@ val nth : nat -> 'a1 list -> 'a1 -> 'a1
 
 val nth_error : 'a1 list -> nat -> 'a1 option
 
+val last : 'a1 list -> 'a1 -> 'a1
+
 val rev : 'a1 list -> 'a1 list
 
 val map : ('a1 -> 'a2) -> 'a1 list -> 'a2 list
@@ -72,6 +74,8 @@ val map : ('a1 -> 'a2) -> 'a1 list -> 'a2 list
 val flat_map : ('a1 -> 'a2 list) -> 'a1 list -> 'a2 list
 
 val fold_left : ('a1 -> 'a2 -> 'a1) -> 'a2 list -> 'a1 -> 'a1
+
+val fold_right : ('a2 -> 'a1 -> 'a1) -> 'a1 -> 'a2 list -> 'a1
 
 val existsb : ('a1 -> bool) -> 'a1 list -> bool
 
@@ -532,7 +536,7 @@ type world = { obs : (oid -> observer); n_obs : nat; ctls : (cid -> ctrl);
                ncalls : (nat -> nat); n_child : nat; n_handles : nat;
                n_hot : nat; log : ((nat * nat) * ev) list;
                taplog : (nat * ev) list;
-               probes : (((nat * nat) * nat) * bool) list;
+               probes : (((((nat * nat) * nat) * bool) * nat) * nat) list;
                snaps : ((nat * bool list) * nat list) list;
                held : (lockid * mode) list; cur : nat; out : outcome }
 
@@ -580,7 +584,8 @@ val w_log : ((nat * nat) * ev) list -> world -> world
 
 val w_taplog : (nat * ev) list -> world -> world
 
-val w_probes : (((nat * nat) * nat) * bool) list -> world -> world
+val w_probes :
+  (((((nat * nat) * nat) * bool) * nat) * nat) list -> world -> world
 
 val w_snaps : ((nat * bool list) * nat list) list -> world -> world
 
@@ -764,7 +769,8 @@ val loc_derived_op : opk -> bool
 
 type observation = { ob_out : nat; ob_log : ((nat * nat) * ev) list;
                      ob_tap : (nat * ev) list;
-                     ob_probes : (((nat * nat) * nat) * bool) list;
+                     ob_probes : (((((nat * nat) * nat) * bool) * nat) * nat)
+                                 list;
                      ob_snaps : ((nat * bool list) * nat list) list }
 
 val obs_of_run : (req list * world) -> observation
@@ -798,3 +804,81 @@ val loc_supported : opk -> bool
 val source_events : scenario -> pipe -> ev list option
 
 val c02_loc_oracle : scenario -> observation -> bool option
+
+val index_from : nat -> 'a1 list -> (nat * 'a1) list
+
+val actions : scenario -> (nat * action) list
+
+val first_some : 'a1 option list -> 'a1 option
+
+val sub_at : scenario -> nat -> nat option
+
+val unsub_at : scenario -> nat -> nat option
+
+val reactions_of : scenario -> nat -> (nat * reaction) list
+
+val pipe_of : scenario -> nat -> pipe option
+
+val simple_reactions : scenario -> bool
+
+val uentries : nat -> ((nat * nat) * ev) list -> ((nat * nat) * ev) list
+
+val term_entry : ((nat * nat) * ev) list -> (nat * nat) option
+
+val self_unsub_entry :
+  scenario -> nat -> ((nat * nat) * ev) list -> (nat * nat) option
+
+val c05_handle : scenario -> observation -> nat -> bool
+
+val c05_oracle : scenario -> observation -> bool option
+
+val colds_in : pipe -> bool
+
+val end_marks : scenario -> observation -> nat -> nat option * nat option
+
+val c06_oracle : scenario -> observation -> bool option
+
+type sref = { r_reg : nat list; r_items : val0 list; r_term : ev option;
+              r_logs : (nat -> ev list); r_joined_at : (nat -> nat) }
+
+val r_add_log : sref -> nat -> ev list -> sref
+
+val r_deliver : sref -> ev list -> sref
+
+val r_set_reg : sref -> nat list -> sref
+
+val r_push : sref -> val0 -> sref
+
+val r_set_term : sref -> ev -> sref
+
+val r_join : sref -> nat -> sref
+
+val sref0 : val0 option -> sref
+
+val sref_step : skind -> sref -> action -> sref
+
+val emits_after_terminal : bool -> action list -> bool
+
+val direct_or_id : pipe -> bool
+
+val c10_oracle : scenario -> observation -> bool option
+
+type cref = { q_reg : nat list; q_conn : bool; q_items : val0 list;
+              q_term : ev option; q_logs : (nat -> ev list);
+              q_attempts : nat; q_dbl : bool }
+
+val q_add_log : cref -> nat -> ev list -> cref
+
+val q_upd : cref -> nat list -> bool -> cref
+
+val q_deliver : cref -> ev list -> cref
+
+val q_source_ev : ckind -> cref -> ev -> cref
+
+val q_connect : ckind -> ev list option -> cref -> cref
+
+val cref_step : ckind -> ev list option -> cref -> action -> cref
+
+val cref0 : cref
+
+val c13_oracle : scenario -> observation -> bool option
